@@ -232,6 +232,7 @@ End Tx.
 Definition lit_bytes (e : sexpr) : bool := match e with SStr _ | SHex _ | SHexOdd => true | _ => false end.
 Definition names_distinct : bool :=
   nodupb (map st_name (sp_txs p))
+  && nodupb (map fst (sp_env p) ++ sp_parties p ++ map fst (sp_policies p) ++ map (fun a => fst (fst a)) (sp_assets p) ++ map td_name (sp_types p))
   && forallb (fun td => nodupb (map fst (td_cases td)) && forallb (fun cs => nodupb (map fst (snd cs))) (td_cases td)) (sp_types p).
 Definition program_ok : bool :=
   (names_distinct && nodupb (map to_lower (map fst (sp_env p) ++ sp_parties p)))
